@@ -203,14 +203,10 @@ class ZorgFileCompiler(ZorgFileListener):
     def enterInline_prop(
         self, ctx: ZorgFileParser.Inline_propContext
     ) -> None:  # noqa: D102
-        words = ctx.getText().split(" ")
-        if len(words) == 1:
-            # The value may itself contain '::' (e.g. '[a::b::c]').
-            key, value = words[0][1:-1].split("::", maxsplit=1)
-        else:
-            key = words.pop(0)[1:-2]
-            value = " ".join(words)[:-1]
-        self._add_prop(key, value)
+        # '[key:: some value]' as well as '[key::value]' and '[key::some value]';
+        # the value may itself contain '::' (e.g. '[a::b::c]').
+        key, value = ctx.getText()[1:-1].split("::", maxsplit=1)
+        self._add_prop(key, value.strip())
 
     def enterItem(self, ctx: ZorgFileParser.ItemContext) -> None:  # noqa: D102
         del ctx
